@@ -9,7 +9,7 @@ package gv
 //     error (the model cannot represent it);  the Go zero time.Time{} prints as
 //     VInt (-62135596800), its Unix() value;
 //   - bool -> VBool; string and []byte -> VStr (byte list, dense hb literal of Cases.v);
-//     a nil []byte and an empty one are both VStr (hb 0 0);
+//     a nil []byte is VStr (ub 0 []), a non-nil empty one VEmptyBytes (NormalizeTerm identifies them);
 //   - nil pointer and nil interface -> VNil; pointer -> VPtr (v);
 //   - slices -> VList [..], nil and empty both VList [];
 //   - struct -> VStruct "pkg.Type" [one value per schema field, see Fields];
@@ -99,6 +99,11 @@ func CoqValue(v reflect.Value) (string, error) {
 		return "VStr " + h.HexBytes([]byte(v.String())), nil
 	case reflect.Slice:
 		if t.Elem().Kind() == reflect.Uint8 {
+			if !v.IsNil() && v.Len() == 0 {
+				// a non-nil empty []byte (what decoding a present, empty Byte String yields): the
+				// encoder's omitempty test tells it from nil
+				return "VEmptyBytes", nil
+			}
 			return "VStr " + h.HexBytes(v.Bytes()), nil
 		}
 		el := make([]string, v.Len())
@@ -164,7 +169,7 @@ func Equal(a, b any) (bool, error) {
 	if err != nil {
 		return false, err
 	}
-	return sa == sb, nil
+	return NormalizeTerm(sa) == NormalizeTerm(sb), nil
 }
 
 // Diff returns a short description of the first difference between the value terms of a and
@@ -223,3 +228,6 @@ func short(s string) string {
 	}
 	return s
 }
+
+// NormalizeTerm identifies nil and empty byte strings in a printed value term (content equality).
+func NormalizeTerm(s string) string { return strings.ReplaceAll(s, "VEmptyBytes", "VStr (ub 0 [])") }
